@@ -674,6 +674,41 @@ def kfifo(ctx):
     # region predicate of the bounded variant: tail_old lies in the circular interval (head, tail]
     from .evalx import eval_pure
     B_ = X + "kirsch_bounded_kfifo_queue::"
+    # tail never moves onto the head segment
+    rid8 = "KF.tail-never-onto-head"
+    ctx.rule(rid8, "bounded k-FIFO try_push: the CAS that advances _tail is reached only when the next segment is known not to be the head segment - "
+                   "(tail + k) mod size != head index for the snapshot in use - or after this thread's own CAS advanced _head; a 'ring full' test that also "
+                   "compares head's ABA tag does not establish that (the tag is bumped by committed() without moving head)")
+    for fn in flow._shapes(ctx, B_ + "try_push"):
+        tcas = flow.find(fn, cas_on("kirsch_bounded_kfifo_queue::_tail", "_tail CAS"))
+        hcas = flow.find(fn, cas_on("kirsch_bounded_kfifo_queue::_head", "_head CAS"))
+        if not tcas:
+            ctx.broken.append("bounded k-FIFO try_push: no CAS on _tail")
+            continue
+        # is queue_full() a pure index test?
+        qf_index_only = True
+        for qf in ctx.facts.shapes(B_ + "queue_full"):
+            if any(a_["field"].endswith("_head") or a_["field"].endswith("_tail") for a_ in qf.atomics()):
+                qf_index_only = False
+        is_next = lambda f, x: flow.has_src(f, x, "field:_queue_size") and flow.has_src(f, x, "load:_tail")
+        is_head = lambda f, x: flow.has_src(f, x, "load:_head") and not flow.has_src(f, x, "field:_queue_size")
+        nxt_is_head = flow.cmp_want(is_next, is_head)
+
+        def want(f, nid):
+            if nid in hcas:
+                return True                                     # this thread moved head forward
+            n_ = f.nodes[nid]
+            if n_["k"] == "call" and n_.get("callee", "").endswith("::queue_full") and not n_.get("inlined"):
+                return False if qf_index_only else None         # 'not full' helps only if the helper is the pure index test
+            w_ = nxt_is_head(f, nid)
+            return None if w_ is None else (not w_)             # next segment != head segment
+        for t_ in tcas:
+            ok, path, n = flow.only_via_want(fn, t_, want)
+            ctx.check(ok and n > 0, rid8, B_ + "try_push#tail-advance|next-segment-not-head", "tail is advanced only when the next segment is not the head segment",
+                      "the CAS that advances _tail is reachable although (tail + k) mod size may equal the head index: queue_full() also requires head to be unchanged, "
+                      "so after a tag-only bump of head (committed() of a concurrent push into the head segment) the full ring is taken for 'not full' and tail is moved "
+                      "ONTO the head segment - tail laps head, stored elements fall outside [head, tail] and try_pop reports empty although elements are stored",
+                      fn.where(t_), fn=fn, path=flow.describe_path(fn, path))
     # head and tail move in whole segments
     rid7 = "KF.segment-step"
     ctx.rule(rid7, "bounded k-FIFO: every CAS on _head / _tail installs either the same index (tag-only bump) or the index of the next segment, "
